@@ -41,6 +41,14 @@ def cases(draw, tier):
                              laws=["noise", "peak", "peakpos", "bump", "ties", "negative", "const", "large"]))
     case["algo"]["params"]["nu"] = draw(st.one_of(st.floats(0.5, 10.0), gen.loguniform(0.05, 10.0)))
     case["algo"]["params"]["rho"] = draw(st.one_of(st.floats(0.7, 0.99), st.floats(0.05, 0.99)))
+    if draw(st.integers(0, 24)) == 0:
+        # a few long horizons with few arms (small nu: no refinement), so that single arms collect
+        # thousands of pulls - behaviour that only changes at large counts is otherwise out of reach
+        case["T"] = draw(st.integers(1500, 3000))
+        case["algo"]["n"] = case["T"]
+        case["algo"]["params"]["nu"] = draw(st.sampled_from([0.01, 0.05, 0.3, 1.0]))
+        case["reward"] = {"law": draw(st.sampled_from(["const", "ties", "peakpos", "noise"])), "seed": draw(st.integers(0, 999)),
+                          "params": {"c": 0.5, "star": [0.4], "sigma": 0.05}}
     return case
 
 
